@@ -22,7 +22,9 @@ def prop(pid, rule, assumptions, level='exploration', exhaustive=None):
                    "libstdc++ generate_canonical maps one 64-bit draw to raw/2^64 (self-tested at start-up)"])
 def c09(c):
     c.std([dict(src='c09_select.cpp', build='asan', shards={'quick': 4, 'thorough': 5}),
-           dict(src='c09_select.cpp', build='clang', shards={'quick': 1, 'thorough': 5}, tiers=('thorough',))])
+           dict(src='c09_select.cpp', build='clang', shards={'quick': 1, 'thorough': 5}, tiers=('thorough',)),
+           dict(src='c09_select.cpp', build='fuzz', shards={'quick': 1, 'thorough': 4}, fuzz_runs={'quick': 3000, 'thorough': 60000})])
+    c.require('fuzz_inputs', 100)
     for k in ('selections', 'u_zero', 'u_max', 'u_boundary', 'cases_with_leading_zero', 'cases_with_trailing_zero',
               'lattice_cases', 'in_run_cases'):
         c.require(k)
@@ -41,7 +43,9 @@ def c09(c):
                    "reference importance function written from the documentation in long double"])
 def c07(c):
     c.std([dict(src='c07_vegas_grid.cpp', build='asan', shards={'quick': 5, 'thorough': 5}),
-           dict(src='c07_vegas_grid.cpp', build='clang', shards={'quick': 1, 'thorough': 5}, tiers=('thorough',))])
+           dict(src='c07_vegas_grid.cpp', build='clang', shards={'quick': 1, 'thorough': 5}, tiers=('thorough',)),
+           dict(src='c07_vegas_grid.cpp', build='fuzz', shards={'quick': 1, 'thorough': 4}, fuzz_runs={'quick': 3000, 'thorough': 200000})])
+    c.require('fuzz_inputs', 100)
     for k in ('refinements', 'equi_boundaries_checked', 'all_zero_refinements', 'calls_checked', 'zero_iterations', 'scripted_runs',
               'scripted_u_zero', 'scripted_u_max', 'icdf_extreme_calls', 'adaptive_runs'):
         c.require(k)
@@ -58,7 +62,9 @@ def c07(c):
                    "enabled channels with a zero datum are judged only for >=0 and the sum (the property does not constrain them)"])
 def c08(c):
     c.std([dict(src='c08_weights.cpp', build='asan', shards={'quick': 5, 'thorough': 5}, extra_inc=SHIM, libs=['-pthread']),
-           dict(src='c08_weights.cpp', build='clang', shards={'quick': 1, 'thorough': 5}, tiers=('thorough',), extra_inc=SHIM, libs=['-pthread'])])
+           dict(src='c08_weights.cpp', build='clang', shards={'quick': 1, 'thorough': 5}, tiers=('thorough',), extra_inc=SHIM, libs=['-pthread']),
+           dict(src='c08_weights.cpp', build='fuzz', shards={'quick': 1, 'thorough': 4}, fuzz_runs={'quick': 3000, 'thorough': 200000}, extra_inc=SHIM, libs=['-pthread'])])
+    c.require('fuzz_inputs', 100)
     for k in ('refinements', 'vectors_checked', 'all_zero_data', 'channels_ratio_judged', 'adaptive_runs', 'run_vectors_checked', 'zero_iterations', 'mpi_runs', 'used_weights_judged_against_previous_result'):
         c.require(k)
 
